@@ -1,7 +1,7 @@
 """cross-registrations: a structural clause that several properties depend on is
 decided under each of them (same rule function, the property's own rule id)"""
 from . import rule
-from . import c02, c03, c04, c05, c06, c07, c08, c13, c14, c15, c16, c17, c20
+from . import c01, c02, c03, c04, c05, c06, c07, c08, c09, c10, c11, c13, c14, c15, c16, c17, c20
 
 # C02: arguments are evaluated by a per-call valuator in a bracketed argument mode
 rule('C02.6')(c06.per_evaluation_state)
@@ -62,3 +62,23 @@ rule('C06.13')(c20.memos_monotone)
 rule('C15.8')(c06.specs_not_written)
 # C18: wildcard steps are rendered as the methods that produce them
 rule('C18.9')(c14.code_agreement)
+
+
+# round-2 seeds: clauses shared between properties
+rule('C01.10')(c13.memo_invalidation)          # the access registered for a type must be the current registration
+rule('C01.11')(c13.exact_before_fuzzy)
+rule('C04.11')(c15.fold_error)                 # documented subtype at the fold boundary
+rule('C06.14')(c07.caller_scope_copied)        # the caller's scope mapping stays unchanged
+rule('C07.11')(c09.dict_branch)                # a match-dict key chains into its own value only
+rule('C08.8')(c09.dict_branch)                 # Optional defaults are evaluated in argument mode
+rule('C09.9')(c10.who_is_returned)             # And / Or / Not inside patterns
+rule('C11.9')(c01.layout_agreement)            # wildcard count / step layout used by the broadcast
+rule('C14.7')(c01.layout_agreement)
+rule('C14.8')(c01.text_paths)                  # '*' / '**' text spelling
+rule('C12.6')(c11.broadcast)                   # delete acts on every wildcard match
+rule('C20.15')(c13.memo_key)
+# no new shared mutable state, for every property whose outcome could depend on it
+for _pid, _n in (('C01', 12), ('C03', 14), ('C04', 12), ('C05', 9), ('C07', 12), ('C08', 9), ('C09', 10), ('C10', 7), ('C11', 10),
+                 ('C12', 7), ('C14', 9), ('C15', 9), ('C16', 8), ('C17', 10), ('C18', 10), ('C19', 6)):
+    rule('%s.%d' % (_pid, _n))(c06.closed_inventory)
+rule('C13.10')(c01.identity_flow)             # the accessor of a path segment always comes from the registry
